@@ -186,7 +186,17 @@ class Enumerator(object):
         return npath, target
 
     def inline_helper(self, node, npath, target, path):
-        args = [self.leaf(a, path) for a in H.call_args(node)]
+        args = []
+        lent = {}   # parameter position -> caller's local handed to the helper as `&mut local`
+        for i_, a in enumerate(H.call_args(node)):
+            if a.get('k') == 'AddrOf' and a.get('mut') and a['e'].get('k') == 'Local' and not (a['e'].get('ty') or '').startswith('&') \
+                    and i_ < len(target.get('params', [])) and target['params'][i_].get('k') == 'Bind' and path.env.get(a['e']['id']) is not None:
+                # the helper is read through, so what it does to the local is seen where it does it: the local keeps its term
+                # (unless the helper assigns through the reference, see below)
+                args.append(path.env[a['e']['id']])
+                lent[i_] = a['e']
+                continue
+            args.append(self.leaf(a, path))
         for a in args:
             if a is not None and a[0] == 'closure':
                 # handed to a helper we read through: the body runs where (and if) the helper calls it
@@ -223,12 +233,16 @@ class Enumerator(object):
             self.ev.mutated = saved_mut
             self.ev.tracked = saved_tr
             self.ev.tyenv = saved_ty
+        overwritten = set(i_ for i_ in lent if S.assigns_through_param(target, i_))
         for p in outs:
             if p.done == 'return':
                 p.done = None
             elif p.done in ('break', 'continue'):
                 raise Unrecognised('helper %s leaves a loop of its caller' % npath)
             p.env = dict(saved_env)
+            for i_ in overwritten:
+                loc = lent[i_]
+                p.env[loc['id']] = ('var', self.ev.mutated.get(loc['id']) or loc['name'], loc['id'])
         return outs
 
     def has_ctl(self, node):
@@ -276,6 +290,22 @@ class Enumerator(object):
                         out.append(p)
                         continue
                     v = p.value
+                    kv = known_variant(v)
+                    w0 = canon.whole(cond['pat'], ty) if kv is not None else None
+                    info0 = canon.variants_of(ty) if kv is not None else None
+                    if kv is not None and info0 is not None and kv in set(x[0] for x in info0[1]) and (w0 == 'ALL' or isinstance(w0, set)):
+                        # the tested value is a constructor application the path itself built (a helper read through): decided here
+                        if w0 == 'ALL' or kv in w0:
+                            tp = p.fork()
+                            self.ev.bind_pat(cond['pat'], v, tp.env)
+                            out.extend(self.run(node['then'], tp))
+                        elif node.get('else') is not None:
+                            out.extend(self.run(node['else'], p.fork()))
+                        else:
+                            ep = p.fork()
+                            ep.value = ('unit',)
+                            out.append(ep)
+                        continue
                     pred, names = canon.pattern_pred(cond['pat'], ty)
                     tp = p.fork()
                     nst = canon.nested(cond['pat'])
